@@ -320,6 +320,103 @@ def run(ctx):
                     fail(f"exception-masked-reused-{name}-{type(e).__name__}", f"{name} raised {type(e).__name__}: {e}", case)
     ctx.streams["mask, reused backend, changing photon number"] = len(flat)
 
+    # ------------------------------------------------------------ one long-lived engine, circuit and input changing
+    # (the same engine object is given another circuit of the same size, the same input again, another input, ...;
+    #  every answer must be the permanent for the CURRENT circuit and input)
+    by_m = {}
+    for c in circs:
+        by_m.setdefault(c.m, []).append(c)
+    hist = []
+    for i in range(ctx.n(30, 300)):
+        r = rng.fork(("history", i))
+        m = r.choice([k for k, v in by_m.items() if len(v) >= 2])
+        cs = r.shuffle(by_m[m])[:r.rint(2, 3)]
+        ins = [gen.rand_state(r, m, r.rint(1, min(nmax, 2 if m >= 5 else nmax))) for _ in range(r.rint(1, 2))]
+        steps = []
+        for _ in range(r.rint(3, 6)):
+            ci, si = r.below(len(cs)), r.below(len(ins))
+            if steps and (ci, si) == steps[-1][:2]:
+                ci = (ci + 1) % len(cs)
+            steps.append((ci, si, r.choice(["amplitude", "probability", "distribution", "all_prob", "evolve"])))
+        hist.append((cs, ins, steps))
+    pairs = sorted({(hi, ci, si) for hi, (cs, ins, steps) in enumerate(hist) for ci, si, _ in steps})
+    mouts = ctx.model.run([(20, [hist[hi][0][ci].m, hist[hi][0][ci].U, hist[hi][1][si]]) for hi, ci, si in pairs])
+    mexp = {k: [(tuple(e[0]), un_qi(e[1]), e[2]) for e in o] for k, o in zip(pairs, mouts)}
+    for hi, (cs, ins, steps) in enumerate(hist):
+        built_cs = [built.get(id(c)) or c.build() for c in cs]
+        names = ["Naive", "SLOS", "SLAP"] + (["MPS"] if all(c.mps_ok for c in cs) else []) + ["Stepper", "Stepper(SLAP)"]
+        case0 = {"circuits": [c.describe() for c in cs], "inputs": ins}
+        ctx.case(["history", [gen.qmat_key(c.U) for c in cs], ins, steps], True, case0)
+        ctx.count("history")
+        for name in names:
+            tol = 1e-6 if name == "MPS" else (5e-6 if name.startswith("Stepper") else 1e-9)
+            try:
+                if name == "Stepper":
+                    b = Stepper()
+                elif name == "Stepper(SLAP)":
+                    b = Stepper(pcvl.SLAPBackend())
+                else:
+                    b = engines(True)[name]()
+                cur_c = None
+                for k, (ci, si, q) in enumerate(steps):
+                    case = {**case0, "engine": name, "steps so far (circuit, input, query)": steps[:k + 1]}
+                    exp = mexp[(hi, ci, si)]
+                    sstate = BS_(ins[si])
+                    if cur_c != ci:
+                        b.set_circuit(built_cs[ci])
+                        cur_c = ci
+                    bad = None
+                    if name.startswith("Stepper"):
+                        sv = b.evolve(sstate)
+                        for t, anum, nrm in exp:
+                            if not close(complex(sv[BS_(t)]) * math.sqrt(nrm), anum, tol * math.sqrt(nrm)):
+                                bad = (t, anum / math.sqrt(nrm), complex(sv[BS_(t)]))
+                                break
+                    else:
+                        if name == "MPS":
+                            b.set_cutoff(max(1, (sum(ins[si]) + 1) ** (cs[ci].m // 2)))
+                        b.set_input_state(sstate)
+                        if q == "amplitude":
+                            for t, anum, nrm in exp:
+                                a = complex(b.prob_amplitude(BS_(t)))
+                                if not close(a * math.sqrt(nrm), anum, tol * math.sqrt(nrm)):
+                                    bad = (t, anum / math.sqrt(nrm), a)
+                                    break
+                        elif q == "probability":
+                            for t, anum, nrm in exp:
+                                pr_ = float(b.probability(BS_(t)))
+                                if abs(pr_ - abs(anum) ** 2 / nrm) > tol:
+                                    bad = (t, abs(anum) ** 2 / nrm, pr_)
+                                    break
+                        elif q == "distribution":
+                            vals = {tuple(kk): float(v) for kk, v in b.prob_distribution().items()}
+                            for t, anum, nrm in exp:
+                                if abs(vals.get(t, 0.0) - abs(anum) ** 2 / nrm) > tol:
+                                    bad = (t, abs(anum) ** 2 / nrm, vals.get(t, 0.0))
+                                    break
+                        elif q == "all_prob":
+                            ap = [float(x) for x in b.all_prob()]
+                            if len(ap) != len(exp):
+                                bad = ("length", len(exp), len(ap))
+                            else:
+                                for x, (t, anum, nrm) in zip(ap, exp):
+                                    if abs(x - abs(anum) ** 2 / nrm) > tol:
+                                        bad = (t, abs(anum) ** 2 / nrm, x)
+                                        break
+                        else:
+                            sv = b.evolve()
+                            for t, anum, nrm in exp:
+                                if not close(complex(sv[BS_(t)]) * math.sqrt(nrm), anum, 10 * tol * math.sqrt(nrm)):
+                                    bad = (t, anum / math.sqrt(nrm), complex(sv[BS_(t)]))
+                                    break
+                    if bad is not None:
+                        fail(f"history-{name}", f"{name}: a long-lived engine given another circuit / input answers for an earlier "
+                             f"one (step {k + 1}, query {q})", {**case, "output": bad[0]}, str(bad[1]), str(bad[2]))
+                        break
+            except Exception as e:
+                fail(f"exception-history-{name}-{type(e).__name__}", f"{name} raised {type(e).__name__}: {e}", case0)
+    ctx.streams["one long-lived engine, circuit and input changing"] = len(hist)
+
     sample = [(21, [c.m, c.U, s, t]) for c, s, t in wb[:3]]
     a = ctx.model.run(sample)
     b = ctx.model.vm_crosscheck(sample, "c02")
